@@ -238,7 +238,8 @@ def _chunk(args):
                 events, cands = TRACE_BOX
                 for e in events:
                     if e["ev"] == "Validate":
-                        e["cands"] = cands or {}
+                        # no Settings object was seen (the run failed before document()): nothing to hold Validate's choice against
+                        e["cands"] = cands or {o: ["cli", "sfile", "user", "defaults", "none"] for o in beh["asg"]}
                 out.append((n, variant, ok, exp, obs, argv, files, list(events)))
             finally:
                 subprocess.run(["rm", "-rf", sb])
